@@ -113,7 +113,9 @@ def firstStackMismatch (spans : List Span) (evs : List Ev) : Option (Nat × Nat)
   ((observed evs).find? fun (a, b, st) =>
     let up := (real.filter fun x => x.s ≤ a && b ≤ x.e).map (·.h)
     let lo := (lower.filter fun x => x.s ≤ a && b ≤ x.e).map (·.h)
-    !(msub lo st && msub st up)).map fun (a, b, _) => (a, b)
+    -- a capture boundary strictly inside a `Source` span: the highlight was not opened / closed in place
+    let inside := lower.any fun x => (a < x.s && x.s < b) || (a < x.e && x.e < b)
+    inside || !(msub lo st && msub st up)).map fun (a, b, _) => (a, b)
 
 /-- Within ONE layer the query cursor yields the captures of nodes that start at the same byte in
 PATTERN order, not in nesting order; when a query lists the pattern of an inner node before the
